@@ -98,6 +98,7 @@ def make_ctx(item: dict) -> explore.Ctx:
         # the log is what the reference computes from the policies
         for k, m in session.judge_log(x, expected):
             c.violate(f'C11:net:log:{k}', f'[{name}] {m}', rp)
+            c.violate(f'C08:bundled:{k}', f'[{name}, four bundled clients] {m}', rp)
         c.see(f'sig:{name}', hashlib.sha1((e.get('log_text') or '').encode()).hexdigest())
         c.inc('complete')
     ctx = explore.Ctx(factory, judge, horizon=3_000_000)
